@@ -275,6 +275,9 @@ func solveAll(obls []*Obligation, o *checkOpts) {
 			to := o.timeout
 			if ob.Expect == "sat" {
 				to = 2 // vacuity probes: informative only (quantified contexts usually answer unknown)
+				if o.tier == "thorough" {
+					to = 20 // thorough: a real search for an inconsistency of the hypotheses (see DESIGN 11.3, substring axiom)
+				}
 			}
 			if ob.Slow {
 				to *= 6 // clauses marked @slow: known to need tens of seconds (64-bit adder identities)
@@ -283,6 +286,18 @@ func solveAll(obls []*Obligation, o *checkOpts) {
 			// answer (timeout/unknown, never sat) is retried with other seeds and a longer budget before the
 			// obligation is reported as failed.
 			ob.Res = SolveVariants(files, to, 0, o.tier == "thorough" && ob.Expect == "unsat")
+			if ob.Expect == "sat" && o.tier == "thorough" {
+				// an `unsat` answer to a probe means contradictory hypotheses; other seeds find contradictions the first misses
+				for _, sd := range []int{1, 15838} {
+					if ob.Res.Status == "unsat" || ob.Res.Status == "sat" {
+						break
+					}
+					r2 := SolveVariants(files, to, sd, false)
+					if r2.Status == "unsat" || r2.Status == "sat" {
+						ob.Res = r2
+					}
+				}
+			}
 			if ob.Expect == "unsat" {
 				for attempt := 1; attempt <= 2 && (ob.Res.Status == "timeout" || ob.Res.Status == "unknown" || ob.Res.Status == "error"); attempt++ {
 					r2 := SolveVariants(files, to*2, 7919*attempt+o.seed, false)
